@@ -107,3 +107,50 @@ func VerifC11Underscore() {
 	vf.Assert("underscore-changes-nothing", same)
 	vf.Reach("end")
 }
+
+// VerifC11TriviaBetween: inserting spaces, newlines or a comment at a token boundary (right
+// after a token, as the lexer itself delimits it) changes neither that token nor the next.
+func VerifC11TriviaBetween() {
+	n := vf.NondetIntRange("len", 1, vf.Param("C11.between", 3))
+	src := verifWindow("r", n, true)
+	trivia := []rune([]string{" ", "\n", ";c\n", " ;c\n\t"}[vf.NondetIntRange("trivia", 0, 3)])
+	expSym := vf.NondetIntRange("expSym", 0, 1) == 1
+	vf.Unwind(2*n + 60)
+	vf.MaxDepth(n + 30)
+	vf.MustTerminate()
+	scan2 := func(text []rune) (a, b verifScanResult) {
+		lex, rd := verifNewLexer(text)
+		lex.SetExpectSymbol(expSym)
+		var lval yySymType
+		k := lex.Lex(&lval)
+		a = verifScanResult{kind: k, pos: rd.pos, expSym: lex.expectSymbol, expMeta: lex.expectMetadata, failed: rd.err != nil}
+		if k != ybase.EOF && lval.token != nil {
+			a.text = lval.token.Value()
+		}
+		if k == ybase.EOF {
+			return
+		}
+		var lval2 yySymType
+		k2 := lex.Lex(&lval2)
+		b = verifScanResult{kind: k2, pos: rd.pos, expSym: lex.expectSymbol, expMeta: lex.expectMetadata, failed: rd.err != nil}
+		if k2 != ybase.EOF && lval2.token != nil {
+			b.text = lval2.token.Value()
+		}
+		return
+	}
+	t1, t2 := scan2(src)
+	if t1.kind == ybase.EOF || t1.expMeta {
+		// no token, or a `{`: inside {...} spaces belong to the key/value text
+		vf.Reach("skipped")
+		return
+	}
+	k := t1.pos
+	with := append(append(append([]rune{}, src[:k]...), trivia...), src[k:]...)
+	w1, w2 := scan2(with)
+	vf.Assert("token-before-trivia-unchanged", w1.kind == t1.kind && w1.text == t1.text && w1.pos == t1.pos)
+	vf.Assert("token-after-trivia-unchanged", w2.kind == t2.kind && w2.text == t2.text && w2.failed == t2.failed)
+	if t2.kind != ybase.EOF {
+		vf.Assert("rest-of-input-unchanged", w2.pos == t2.pos+len(trivia))
+	}
+	vf.Reach("end")
+}
